@@ -728,6 +728,15 @@ def r12_every_value_under_its_designator(ctx):
              % (sorted(outs)[0] if outs else None, want))
 
 
+def r13_shared_set(ctx):
+    """the way back from XML stores each value with Segment.set at its designator and relies on it to pad the positions in
+    between (empty elements and components are not written to the XML): the named element / component changes, every
+    other keeps its value, ANY number of missing positions is padded.  C10.R8 (shared)."""
+    from . import c10
+    for o in c10.r8_set_changes_one_value(ctx):
+        yield o
+
+
 RULES = [
     Rule('C08.R1', 'XML vocabulary agreement writer<->reader; every element id designates its own position', r1_vocabulary, floor=11000),
     Rule('C08.R2', 'content/attribute escaping: & first, <, quote char; every value passes its escape', r2_escaping, floor=9),
@@ -740,5 +749,6 @@ RULES = [
     Rule('C08.R10', 'shared with C01.R3/R5: the tokenizer loses or damages no segment at a buffer boundary', r10_shared_tokenizer, floor=6),
     Rule('C08.R11', 'x12xml_simple.seg: loop elements closed / opened between consecutive segments spell the map path (constant propagation over path pairs)', r11_loop_elements_spell_the_path, floor=1),
     Rule('C08.R12', 'x12xml_simple.seg: every used, non-empty element / component written under its designator, in order (constant propagation)', r12_every_value_under_its_designator, floor=1),
+    Rule('C08.R13', 'shared with C10.R8: Segment.set stores at exactly the designated position and pads every gap', r13_shared_set, floor=1),
     Rule('C08.R6', 'DOCTYPE precedes the root element; the root is always opened', r6_prolog_order, floor=2),
 ]
